@@ -49,8 +49,8 @@ CHECK_ORDER = ["C19", "C10", "C05", "C12", "C07", "C17", "C16", "C13", "C20", "C
 BROKER = ["C05", "C12", "C07", "C13", "C14", "C02", "C01", "C15"]
 FILE_CHECKS = {
     "connections/redis/": BROKER + ["C03"],
-    "connections/rabbitmq/": BROKER + ["C09"],
-    "connections/in_memory/": BROKER + ["C10"],
+    "connections/rabbitmq/": BROKER + ["C09", "C03"],
+    "connections/in_memory/": BROKER + ["C10", "C03"],
     "connections/abc.py": ["C17", "C13", "C02", "C01"],
     "_runner.py": ["C10", "C17", "C13", "C02", "C09", "C03"],
     "_processor.py": ["C10", "C17", "C16", "C13", "C08", "C18", "C02", "C04", "C03"],
@@ -303,7 +303,7 @@ def cmd_checks(args):
         res = {}
         detected = None
         for c in (CHECK_ORDER if args.all_checks else checks_for(m["file"])):
-            r = sh(f"cd /verif && taskset -c {args.cpus} timeout 900 ./check {c} quick 2>&1 | tail -40", timeout=1000, env=env)
+            r = sh(f"cd /verif && taskset -c {args.cpus} timeout 420 ./check {c} quick 2>&1 | tail -40", timeout=480, env=env)
             o = r.stdout or ""
             last = o.strip().splitlines()[-1] if o.strip() else ""
             if "VIOLATION property=" in o:
